@@ -332,6 +332,7 @@ def targets():
             ex.models["Trainer.__validate"] = validate_contract
             ex.models["Callback.__call__"] = callback
             ex.closure_models = {"record_metrics": lambda ex_, s, args, kw: None}
+            ex.models["_record_metrics"] = ex.models["record_metrics"] = lambda ex_, s, args, kw: None      # the same helper if it is ever moved to module level
             return ex
         ts.append(Target(NAME + "fit[%s validation, on_train_epoch %s, on_validation_epoch %s]" % ("with" if val else "without", "given" if cbt else "None", "given" if cbv else "None"), SRC, "Trainer.fit",
                          setup, ens, executor=mk, replay=make_replay(validation=val, evaluator=True, cb_train=cbt, cb_val=cbv, epochs_default=2),
